@@ -138,7 +138,7 @@ func runC08(c *fw.C) {
 	c.Desc("cfg{%s} pool=%d ops=%d", cfg, pool, nops)
 	d := NewDriver(c, "C08", cfg, pool)
 	c08Hook(c, d.E)
-	d.WPersist, d.WReload, d.WClone = 8, 4, 3
+	d.WPersist, d.WReload, d.WClone, d.WFault = 8, 4, 3, 3
 	d.OnRoot = func(d *Driver, root *mast.Root) { c08Root(c, d, root) }
 	for i := 0; i < nops && !d.Failed && !c.Violated(); i++ {
 		d.Step()
